@@ -120,6 +120,36 @@ def run_case(spec):
                 viol("setop_mutated_operand", {"op": name})
             if np.shares_memory(r.points, a.points) or np.shares_memory(r.points, b.points):
                 viol("setop_result_aliases_operand", {"op": name})
+        # short chains with a third shape (multi-argument forms and operator chains)
+        c_pts = rand_shape(rng, scale, center=tuple((np.mean(a_pts, axis=0) + rng.uniform(-1.0, 1.0, 2) * scale).tolist()))
+        try:
+            c = tdgl.Polygon("c", points=c_pts)
+            inc, dc = inside(P, c.points)
+            far3 = far & (dc > 1e-6 * scale)
+            for name, fn, want in (
+                ("union3", lambda: a.union(b, c), ina | inb | inc), ("intersection3", lambda: a.intersection(b, c), ina & inb & inc),
+                ("difference3", lambda: a.difference(b, c), ina & ~inb & ~inc), ("(a+b)-c", lambda: (a + b) - c, (ina | inb) & ~inc),
+                ("(a-b)+c", lambda: (a - b) + c, (ina & ~inb) | inc), ("(a+b)*c", lambda: (a + b) * c, (ina | inb) & inc),
+                ("from_union3", lambda: tdgl.Polygon.from_union([a, b_pts, c], name="u"), ina | inb | inc),
+            ):
+                try:
+                    r = fn()
+                except ValueError:
+                    valueerrors += 1
+                    continue
+                cnt("setop_checks")
+                cnt("chain_checks")
+                check_stored(r, name)
+                inr, dr = inside(P, r.points)
+                ok = far3 & (dr > 1e-6 * scale)
+                bad = ok & (inr != want)
+                if bad.any():
+                    i = int(np.argmax(bad))
+                    viol("setop_membership_wrong", {"op": name, "point": P[i].tolist(), "in_a": bool(ina[i]), "in_b": bool(inb[i]), "in_c": bool(inc[i]), "in_result": bool(inr[i])})
+                if not (np.array_equal(a.points, a0) and np.array_equal(b.points, b0)):
+                    viol("setop_mutated_operand", {"op": name})
+        except ValueError:
+            valueerrors += 1
         # inclusion-exclusion on areas (independent of probes)
         try:
             u, i_ = a.union(b), a.intersection(b)
